@@ -120,3 +120,27 @@ Proof.
   split; [intros m; apply Permutation_sym, Permutation_rev|].
   split; [discriminate | reflexivity].
 Qed.
+
+(* ---- independence from plan caching, on the executor model (Exec/PlanExec.v; proofs in
+   Proofs/PlanExecProofs.v): executing one prepared plan for the n-th time -- whatever was
+   executed with it before: other variables, other roots, other resolver behaviour -- returns what
+   a fresh, unplanned execution of the same request returns; in particular the same request
+   served n times from one cached plan yields n identical responses (data, errors with paths and
+   locations, resolver calls).  The executor model is a function of the request, so "the same
+   request" has one response by construction; this theorem adds that reuse of a plan does not
+   leak anything from one execution into the next. *)
+From GQL Require Import Exec.Syntax Exec.Coerce Exec.Exec Exec.Request Exec.PlanExec Proofs.PlanExecProofs.
+Theorem C12_independent_of_plan_reuse : forall pf S D opname pp,
+  plan_query pf S D opname = Planned pp ->
+  forall ef (before : list run) x n,
+    run_plan pf ef S D pp x <> RFuel ->
+    Forall (fun y => run_plan pf ef S D pp y <> RFuel) before ->
+    map (run_plan pf ef S D pp) (before ++ repeat x n)
+    = map (run_fresh (ef + pf) S D opname) before ++ repeat (run_fresh (ef + pf) S D opname x) n.
+Proof.
+  intros pf S D opname pp Hp ef before x n Hx Hb.
+  rewrite (plan_reuse pf S D opname pp Hp ef (before ++ repeat x n)).
+  - rewrite map_app. f_equal. clear. induction n as [|n IH]; cbn; [reflexivity|f_equal; exact IH].
+  - apply Forall_app. split; [exact Hb|]. clear -Hx. induction n as [|n IH]; cbn; constructor; assumption.
+Qed.
+Print Assumptions C12_independent_of_plan_reuse.
